@@ -169,7 +169,14 @@ fn one_run(st: &mut Stats, c: &Case, pseed: u64, sigs: &mut HashSet<u64>, perms:
     let (tx, rx) = mpsc::channel();
     let (p2, dr2, thr) = (p.clone(), dr.clone(), c.threshold);
     let t0 = Instant::now();
+    // caller context: in one run out of eight the calling thread holds the process's stderr and stdout locks across the
+    // call (an application in the middle of printing a report); workers must not need either to finish
+    let hold_std_locks = pseed % 8 == 3;
+    if hold_std_locks {
+        st.count("runs_with_caller_holding_stderr_and_stdout_locks");
+    }
     let handle = std::thread::spawn(move || {
+        let _held = if hold_std_locks { Some((std::io::stderr().lock(), std::io::stdout().lock())) } else { None };
         let r = catch_unwind(AssertUnwindSafe(|| prayer_times_dt_rng_block(&p2, l, &dr2, thr)));
         let r = r.map_err(|_| LAST_PANIC.with(|p| p.borrow().clone()));
         let _ = tx.send(r);
